@@ -36,6 +36,8 @@ def run(repo, rep):
     _memo_rule(repo, rep, 'C13', 'C13.Z1')
     from ..pitfalls import log_rule as _log_rule
     _log_rule(repo, rep, 'C13', 'C13.Z2')
+    from ..api_pitfalls import truth_rule as _truth_rule
+    _truth_rule(repo, rep, 'C13', 'C13.Z4')
     model = FsmModel(repo)
     pm = ProviderModel(repo, model)
     rep.trust('PS3.8 Table 9-10 rows Evt17/Evt18 as transcribed; CPython semantics of threading.Event, select, socket')
